@@ -12,9 +12,21 @@ A case is `{'proto': 'v1'|'v2'|'loose'|'auto', 'ops': [...]}` with ops
     ['C']                      cancel_pending_requests
     ['X', t]                   the t-th future handed out is cancelled by its awaiter
 
-Payloads are JSON values, so a case is a replay file as is.  `abstract()` maps a case to the
-model's input line (ids and "is this a valid response for the protocol in force" are the only
-things the model needs to know about a payload)."""
+Payloads are JSON values, so a case is a replay file as is.
+
+IDS ARE READ FROM THE WIRE.  The number under `"id"` in a response payload of a case is a *draw
+index*: `n` stands for "the id the peer saw in the n-th request this connection handed out"
+(0-based; a send that fails still uses up its indices).  While the case runs, the harness decodes
+the ids from the bytes `send_request` / `send_batch` returned and substitutes them (`Resolver`);
+`1.0`, `1.5`, `"1"` become the float / half / string forms of that wire id, an index not drawn
+yet is extrapolated from the last id seen.  On the unchanged tree (ids 0, 1, 2, ...) the
+substitution is the identity.  Oracle and model see the resolved payloads only, so nothing
+depends on where a connection starts counting, and the draw index tells the oracle which request
+a response was *caused by* (a duplicate of the answer to request 0 stays an answer to request 0
+even on a tree that hands the id 0 out again).
+
+`abstract()` maps a resolved case to the model's input line (ids and "is this a valid response
+for the protocol in force" are the only things the model needs to know about a payload)."""
 import itertools
 import json
 import os
@@ -197,6 +209,11 @@ def make_request(style, idv, n):
 
 
 # ------------------------------------------------------------------ case -> model line
+class OutsideModel(ValueError):
+    """the ids the connection put on the wire are not what the model can express (not
+    non-negative ints in arithmetic progression from a start): reported as a disagreement"""
+
+
 def inforce_after(proto, inforce, op):
     """protocol in force after receiving op's message (AutoDetect settles on the first one)"""
     if inforce is not None or op[0] not in 'RLO':
@@ -204,10 +221,12 @@ def inforce_after(proto, inforce, op):
     return py_detect(op[1])
 
 
-def abstract(case, variant='R'):
+def abstract(case, variant='R', start=None):
+    """model input line of a case whose payloads carry the ids actually used on the wire
+    (`run_impl_case` returns the resolved ops); `start` = first id of the history"""
     proto = case['proto']
     inforce = None if proto == 'auto' else proto
-    toks = [f'{variant}:{proto}']
+    toks = [f'{variant}:{proto}' + ('' if start is None else f':{start}')]
     for op in case['ops']:
         k = op[0]
         if k == 'S':
@@ -232,9 +251,100 @@ def abstract(case, variant='R'):
             toks.append('C')
         elif k == 'X':
             toks.append(f'X{op[1]}')
+        elif k in 'PU' and variant == 'W':      # session histories: send buffer full / drained
+            toks.append(k)
+        elif k == 'D' and variant == 'W':       # the q-th parked caller gives up
+            toks.append(f'D{op[1]}')
         else:
             raise ValueError(op)
     return ' '.join(toks)
+
+
+# ------------------------------------------------------------------ ids: draw index -> wire id
+def is_int(v):
+    return isinstance(v, int) and not isinstance(v, bool)
+
+
+class Resolver:
+    """Maps the draw indices used in a case's response payloads to the ids the connection
+    really put on the wire (decoded from the message bytes by the caller)."""
+
+    def __init__(self, step=1):
+        self.step = step or 1
+        self.nom = 0            # next draw index
+        self.act = {}           # draw index -> wire id
+        self.first = None       # (draw index, wire id) of the first id seen
+
+    def drew(self, count, wire_ids):
+        """a send used up `count` draw indices; `wire_ids` = the ids decoded from its message
+        (None / fewer when the send failed or the message shows fewer ids)"""
+        noms = list(range(self.nom, self.nom + count))
+        self.nom += count
+        for n, a in zip(noms, wire_ids or []):
+            self.act[n] = a
+            if self.first is None:
+                self.first = (n, a)
+        return noms
+
+    def predict(self, n):
+        if not self.act:
+            return n
+        m = max(self.act)
+        a = self.act[m]
+        return a + self.step * (n - m) if is_int(a) else n
+
+    def wire(self, n):
+        """(wire id, draw index if that index was really drawn else None)"""
+        if n in self.act:
+            return self.act[n], n
+        return self.predict(n), None
+
+    def resolve(self, v):
+        """id value of a case payload -> (value to put on the wire, cause draw index or None,
+        form): form 'int' = exactly the id, 'float' = a float equal to it, '' = anything else"""
+        if isinstance(v, bool) or v is None:
+            return v, None, ''
+        if isinstance(v, int):
+            if v < 0:
+                return v, None, ''
+            a, c = self.wire(v)
+            return a, c, 'int' if c is not None else ''
+        if isinstance(v, float):
+            if v != v or v in (float('inf'), float('-inf')) or v < 0:
+                return v, None, ''
+            if v == int(v):
+                a, c = self.wire(int(v))
+                return (float(a), c, 'float' if c is not None else '') if is_int(a) else (v, None, '')
+            if v * 2 == int(v * 2):
+                a, _c = self.wire(int(v))
+                return (a + 0.5, None, '') if is_int(a) else (v, None, '')
+            return v, None, ''
+        if isinstance(v, str) and v.isdigit() and len(v) < 8:
+            a, _c = self.wire(int(v))
+            return str(a), None, ''
+        if isinstance(v, list) and len(v) == 1 and is_int(v[0]) and v[0] >= 0:
+            return [self.wire(v[0])[0]], None, ''
+        if isinstance(v, dict) and list(v) == ['a'] and is_int(v['a']) and v['a'] >= 0:
+            return {'a': self.wire(v['a'])[0]}, None, ''
+        return v, None, ''
+
+    def payload(self, p):
+        """(payload with the wire id, cause, form)"""
+        if not isinstance(p, dict) or 'id' not in p:
+            return p, None, ''
+        a, c, form = self.resolve(p['id'])
+        q = dict(p)
+        q['id'] = a
+        return q, c, form
+
+    def start(self):
+        """the id the counter started from, as the model counts (a failed send uses up its ids)"""
+        if self.first is None:
+            return None
+        n, a = self.first
+        if not is_int(a) or a - self.step * n < 0:
+            raise OutsideModel(f'first id on the wire is {a!r} (draw index {n})')
+        return a - self.step * n
 
 
 # ------------------------------------------------------------------ implementation side
@@ -270,23 +380,34 @@ def fut_state(jr, f):
     return f'r{t}' if t is not None else f'r?{r!r}'
 
 
-def run_impl_case(jr, case):
+def wire_ids(msg):
+    """the ids in a message handed out by send_request / send_batch, in message order"""
+    p = json.loads(msg)
+    return [m['id'] for m in (p if isinstance(p, list) else [p]) if isinstance(m, dict) and 'id' in m]
+
+
+def run_impl_case(jr, case, step=1, fail_draws=(True, True)):
     """Runs the case against a fresh connection (inside a running loop).  Returns
-    (obs tokens, final token list, trace) - trace[i] = dict(exc, states, pending, ids, ticket)."""
+    (obs tokens, final token list, trace, resolver) - trace[i] = dict(op = the op with the ids
+    really used on the wire, causes/forms per response member, exc, states, pending, ids (decoded
+    from the message), noms (draw indices), ticket)."""
     conn = jr.JSONRPCConnection(getattr(jr, PROTO_CLASS[case['proto']]))
+    rs = Resolver(step)
     futs, obs, trace = [], [], []
     for op in case['ops']:
         k = op[0]
         before = [fut_state(jr, f) for f in futs]
-        rec = {'exc': None, 'ids': None, 'ticket': None, 'ret': None}
+        rec = {'op': op, 'exc': None, 'ids': None, 'noms': None, 'ticket': None, 'ret': None,
+               'causes': [], 'forms': []}
+        nreq = 1 if k == 'S' else op[1].count('r') if k == 'B' else 0
         try:
             if k == 'S':
                 arg = 1 if op[1] else _Unencodable()
                 msg, fut = conn.send_request(jr.Request('m', [arg]))
                 futs.append(fut)
-                rec['ids'] = [json.loads(msg).get('id')]
+                rec['ids'] = wire_ids(msg)
                 rec['ticket'] = len(futs) - 1
-                o = f's{rec["ids"][0]}/{rec["ticket"]}'
+                o = 's' + ','.join(str(i) for i in rec['ids']) + f'/{rec["ticket"]}'
             elif k == 'B':
                 items = []
                 for j, c in enumerate(op[1]):
@@ -295,13 +416,24 @@ def run_impl_case(jr, case):
                 if not op[2] and not items:
                     raise jr.ProtocolError(0, 'harness: nothing to make unencodable')
                 msg, fut = conn.send_batch(jr.Batch(items))
-                rec['ids'] = [p['id'] for p in json.loads(msg) if 'id' in p]
+                rec['ids'] = wire_ids(msg)
                 if fut is not None:
                     futs.append(fut)
                     rec['ticket'] = len(futs) - 1
                 o = 's' + ','.join(str(i) for i in rec['ids']) + '/' + \
                     ('-' if fut is None else str(rec['ticket']))
-            elif k in 'RLO':
+            elif k in 'RL':
+                if k == 'R':
+                    q, c, form = rs.payload(op[1])
+                    rec['op'] = ['R', q]
+                    rec['causes'], rec['forms'] = [c], [form]
+                else:
+                    parts = [rs.payload(m) for m in op[1]]
+                    rec['op'] = ['L', [x[0] for x in parts]]
+                    rec['causes'], rec['forms'] = [x[1] for x in parts], [x[2] for x in parts]
+                rec['ret'] = len(conn.receive_message(json.dumps(rec['op'][1]).encode()))
+                o = None
+            elif k == 'O':
                 rec['ret'] = len(conn.receive_message(json.dumps(op[1]).encode()))
                 o = None
             elif k == 'C':
@@ -323,6 +455,9 @@ def run_impl_case(jr, case):
         except Exception as e:   # noqa: any other escaping exception is an observation
             rec['exc'] = type(e).__name__
             o = '!' + type(e).__name__
+        if k in 'SB':
+            used = nreq if rec['exc'] is None or fail_draws[0 if k == 'S' else 1] else 0
+            rec['noms'] = rs.drew(used, rec['ids'])
         after = [fut_state(jr, f) for f in futs]
         changed = [t for t, (a, b) in enumerate(zip(before, after)) if a != b]
         if o is None:
@@ -334,56 +469,70 @@ def run_impl_case(jr, case):
         trace.append(rec)
     final = [f'#{len(conn.pending_requests())}',
              ','.join(fut_state(jr, f) for f in futs) if futs else '.']
-    return obs, final, trace
+    return obs, final, trace, rs
 
 
 # ------------------------------------------------------------------ the property oracle
+def same_id(a, b):
+    """would a peer / a dict take these two ids for the same one?"""
+    try:
+        return bool(a == b)
+    except Exception:   # noqa
+        return a is b
+
+
 def oracle(case, trace):
     """None if the property holds on this trace, else (key, reason).  Written from the property
     text: every future completes with exactly what the peer sent under its request's id (batch:
     one outcome per request member, in member order), whatever the order; no response completes
-    a different request or the same request twice; outstanding ids are pairwise distinct; a
-    response to an id that is not outstanding is rejected as a protocol error and disturbs
-    nothing."""
+    a different request or the same request twice; ids outstanding at the same time are pairwise
+    distinct; a response to an id that is not outstanding is rejected as a protocol error and
+    disturbs nothing.
+
+    Everything is judged on the ids decoded from the wire (`rec['ids']`, the resolved payloads
+    `rec['op']`).  `rec['causes']` says which request the scripted peer was answering (the draw
+    index the case named): it matters only on a tree that hands an id out a second time - there
+    a duplicate of the answer to the id's earlier holder must not complete the later one
+    ("a response never completes a different request").
+
+    Readings that go beyond the text are NOT judged here (the model comparison reports them as
+    disagreements): what the ids look like (any JSON values, as long as they are distinct),
+    whether an id is ever drawn again after its request completed, and whether a response whose
+    id is a float equal to an outstanding int id (1.0 for 1) counts as "sent under that id" - it
+    may complete that request (with exactly what it carries) or be rejected."""
     proto = case['proto']
     inforce = None if proto == 'auto' else proto
-    outstanding = {}        # ('s', id) / ('b', (ids..)) -> ticket
+    outstanding = {}        # ticket -> ('s', (id,)) / ('b', (ids..))
+    holder = {}             # draw index -> ticket of the request that drew it
     exp = []                # expected state of every future
     nfut = 0
-    ever = set()            # every id drawn on this connection so far
-    for step, (op, rec) in enumerate(zip(case['ops'], trace)):
+    for step, rec in enumerate(trace):
+        op = rec['op']
         k = op[0]
         where = f'op {step} {json.dumps(op)}'
         if k in 'SB':
             if rec['exc'] is None:
                 ids = rec['ids']
-                live = {i for key in outstanding for i in (key[1] if key[0] == 'b' else (key[1],))}
-                for i in ids:
-                    if not isinstance(i, int) or isinstance(i, bool):
-                        return 'c01:id-not-fresh', f'{where}: id {i!r} is not an int'
-                    if i in live:
-                        return 'c01:id-not-fresh', f'{where}: id {i} is already outstanding'
-                    # a duplicated (late) response to a finished request must be rejected, never
-                    # complete a different request: that is only possible if an id is not drawn
-                    # again once its request has completed
-                    if i in ever:
-                        return ('c01:id-reused-after-completion',
-                                f'{where}: id {i} was already used by an earlier, completed request '
-                                f'- a duplicate of that response would now complete this one')
-                    live.add(i)
-                    ever.add(i)
+                live = [i for key in outstanding.values() for i in key[1]]
+                for j, i in enumerate(ids):
+                    if any(same_id(i, x) for x in live):
+                        return 'c01:id-not-fresh', f'{where}: id {i!r} is already outstanding'
+                    if any(same_id(i, x) for x in ids[:j]):
+                        return 'c01:id-not-fresh', f'{where}: id {i!r} twice in one batch'
                 nreq = 1 if k == 'S' else op[1].count('r')
                 if len(ids) != nreq:
                     return 'c01:id-not-fresh', f'{where}: {len(ids)} ids for {nreq} requests'
                 if rec['ticket'] is not None:
-                    outstanding[('s', ids[0]) if k == 'S' else ('b', tuple(ids))] = rec['ticket']
+                    outstanding[rec['ticket']] = ('s' if k == 'S' else 'b', tuple(ids))
+                    for n in rec['noms'] or []:
+                        holder[n] = rec['ticket']
                     exp.append('p')
                     nfut += 1
                 elif nreq:
                     return 'c01:no-future', f'{where}: requests sent but no awaitable returned'
         elif k in 'RLO':
             inforce = inforce_after(proto, inforce, op)
-            target, outcome, lenient = None, None, False
+            target, outcome, lenient, floaty, stale = None, None, False, False, False
             bool_id = False
             if k == 'R':
                 p = op[1]
@@ -392,11 +541,14 @@ def oracle(case, trace):
                 bool_id = isinstance(idv, bool)
                 recoverable = 'id' in p and admits(inforce, idv)
                 if recoverable and is_number(idv):
-                    for key, t in outstanding.items():
-                        if key[0] == 's' and key[1] == idv:
+                    for t, key in outstanding.items():
+                        if key[0] == 's' and is_number(key[1][0]) and key[1][0] == idv:
                             target = (key, t)
                     if target:
                         outcome = ('r' + tok[1:] if tok[0] == 'v' else tok) if wf else 'P'
+                        floaty = isinstance(idv, float)
+                        c = rec['causes'][0]
+                        stale = c is not None and holder.get(c) != target[1]
             elif k == 'L':
                 ps = op[1]
                 cls = [classify(inforce, p) for p in ps]
@@ -405,11 +557,14 @@ def oracle(case, trace):
                     'id' in p and admits(inforce, p['id']) and is_number(p['id']) for p in ps)
                 if good:
                     got = sorted(p['id'] for p in ps)
-                    for key, t in outstanding.items():
+                    for t, key in outstanding.items():
                         if key[0] == 'b' and len(key[1]) == len(got) and \
-                                all(a == b for a, b in zip(key[1], got)):
+                                all(is_number(a) and a == b for a, b in zip(key[1], got)):
                             target = (key, t)
                     if target:
+                        floaty = any(isinstance(p['id'], float) for p in ps)
+                        stale = any(c is not None and holder.get(c) != target[1]
+                                    for c in rec['causes'])
                         if all(c[1] for c in cls):
                             by_id = {}
                             for p, c in zip(ps, cls):
@@ -437,21 +592,30 @@ def oracle(case, trace):
                 if k in 'RL' and rec['exc'] is None:
                     fam = 'c01:bool-id-completes-request' if bool_id else 'c01:unknown-id-not-rejected'
                     return fam, f'{where}: accepted without a protocol error'
-            elif lenient:
+            elif stale:
+                # the peer was answering an earlier holder of this id (a duplicate / late
+                # response); the id has since been handed to another request
+                if target[1] in rec['changed'] or rec['exc'] is None:
+                    return ('c01:response-completes-different-request',
+                            f'{where}: this is the peer\'s answer to the request of draw '
+                            f'{[c for c in rec["causes"] if c is not None]}, which is no longer '
+                            f'outstanding; it was accepted for future {target[1]} of a different request that '
+                            f'was handed the same id {target[0][1]}')
+            elif lenient or (floaty and rec['exc'] is not None):
                 if rec['exc'] is None:
                     # accepted although a member was malformed: then only this batch may move
                     if any(t != target[1] for t in rec['changed']):
                         return 'c01:other-ticket-disturbed', f'{where}: changed {rec["changed"]}'
                     exp[target[1]] = rec['states'][target[1]]
-                    del outstanding[target[0]]
+                    del outstanding[target[1]]
             else:
                 if rec['exc'] is not None:
                     return 'c01:valid-response-rejected', f'{where}: {rec["exc"]} for an outstanding id'
                 if exp[target[1]] == 'p':
                     exp[target[1]] = outcome
-                del outstanding[target[0]]
+                del outstanding[target[1]]
         elif k == 'C':
-            for key, t in outstanding.items():
+            for t in outstanding:
                 if exp[t] == 'p':
                     exp[t] = 'c'
             outstanding.clear()
@@ -488,32 +652,56 @@ def unlisted_failure(ctx, res):
 
 # ------------------------------------------------------------------ workers
 _jr = None
+_step = 1
+_fail_draws = (True, True)
 
 
-def _init(repo):
-    global _jr
+def id_params(facts):
+    """what the facts say about the id counter: (step, does a failed send_request /
+    send_batch use up the ids it drew) - parameters of the model, not laws"""
+    facts = facts or {}
+    return (facts.get('id_step', 1) or 1,
+            (bool(facts.get('fail_draws_single', True)), bool(facts.get('fail_draws_batch', True))))
+
+
+def _init(repo, step=1, fail_draws=(True, True)):
+    global _jr, _step, _fail_draws
     _jr = fresh_import(repo, 'aiorpcx.jsonrpc')
+    _step = step or 1
+    _fail_draws = tuple(fail_draws)
+
+
+def _run_one(c):
+    """(observation string, oracle verdict, model input line | None, why there is no line)"""
+    obs, final, trace, rs = run_impl_case(_jr, c, _step, _fail_draws)
+    got = ' '.join(obs + final)
+    verdict = oracle(c, trace)
+    try:
+        line = abstract({'proto': c['proto'], 'ops': [r['op'] for r in trace]}, start=rs.start())
+        why = None
+    except OutsideModel as e:
+        line, why = None, f'ids outside the model: {e}'
+    except ValueError as e:
+        line, why = None, f'payload outside the modelled grids: {e}'
+    return got, verdict, line, why
 
 
 def _run_batch(cases):
     async def go():
-        out = []
-        for c in cases:
-            obs, final, trace = run_impl_case(_jr, c)
-            out.append((' '.join(obs + final), oracle(c, trace)))
-        return out
+        return [_run_one(c) for c in cases]
     return vloop.run(go())
 
 
 def run_impl(ctx, cases):
     n = len(cases)
+    step, fail_draws = id_params(ctx.facts)
     if n < 6000:
-        _init(ctx.repo)
+        _init(ctx.repo, step, fail_draws)
         return _run_batch(cases)
     nproc = min(12, os.cpu_count() or 1)
     size = max(2000, n // (nproc * 4))
     jobs = [cases[i:i + size] for i in range(0, n, size)]
-    with Pool(nproc, initializer=_init, initargs=(ctx.repo,)) as pool:
+    with Pool(nproc, initializer=_init, initargs=(ctx.repo, step, fail_draws)) as pool:
         parts = pool.map(_run_batch, jobs)
     return [r for p in parts for r in p]
 
@@ -522,20 +710,27 @@ def evaluate(ctx, cases, res, scope):
     if not cases:
         return
     outs = run_impl(ctx, cases)
-    lines = [abstract(c) for c in cases]
-    model = ctx.model(lines)
-    for i, (c, (got, verdict)) in enumerate(zip(cases, outs)):
+    idx = [i for i, o in enumerate(outs) if o[2] is not None]
+    model = ctx.model([outs[i][2] for i in idx])
+    model_of = dict(zip(idx, model)) if model is not None else {}
+    for i, (c, (got, verdict, line, why)) in enumerate(zip(cases, outs)):
         if verdict is not None:
-            res.violation(verdict[0], c, verdict[1], impl=got, model_line=lines[i])
-        if model is not None and model[i] != got:
-            res.disagreement(c, got, model[i], model_line=lines[i])
+            res.violation(verdict[0], c, verdict[1], impl=got, model_line=line)
+        if line is None:
+            if isinstance(why, str) and why.startswith('ids outside'):
+                res.disagreement(c, got, why)
+            else:
+                res.count('cases_outside_model_grid')
+            continue
+        if model is not None and model_of[i] != got:
+            res.disagreement(c, got, model_of[i], model_line=line)
         kinds = {op[0] for op in c['ops']}
         res.count('ops_total', len(c['ops']))
         res.count('cases_with_batch_response', 'L' in kinds)
         res.count('cases_with_rejection', '!' in got)
         res.count('cases_' + c['proto'])
         if len(c['ops']) >= 3 and kinds & {'R', 'L'}:
-            res.nontrivial(lines[i])
+            res.nontrivial(line)
     res['evaluations'] += len(cases)
     res['scopes'][scope] = res['scopes'].get(scope, 0) + len(cases)
 
@@ -600,8 +795,8 @@ def _styles(proto):
     return ('v1', 'v2', 'loose') if proto == 'auto' else (proto,)
 
 
-def exhaustive_cases(facts, nsend_max, send_kinds, shapes_shifts, thin=1):
-    start, step = facts.get('id_start', 0), facts.get('id_step', 1) or 1
+def exhaustive_cases(nsend_max, send_kinds, shapes_shifts, thin=1):
+    start, step = 0, 1       # draw indices (see the module docstring), not wire ids
     count = 0
     for proto in ('v1', 'v2', 'loose', 'auto'):
         kinds = ['S'] if proto == 'v1' else send_kinds
@@ -703,9 +898,9 @@ def insertions(style, keys, base, unused):
 
 
 # ------------------------------------------------------------------ seeded generator
-def random_case(rng, facts, hostile=False):
+def random_case(rng, hostile=False):
     proto = rng.choice(['v1', 'v2', 'v2', 'loose', 'auto', 'auto'])
-    start, step = facts.get('id_start', 0), facts.get('id_step', 1) or 1
+    start, step = 0, 1       # draw indices (see the module docstring), not wire ids
     nxt = start
     inforce = None if proto == 'auto' else proto
     keys = []      # outstanding keys as the generator believes them to be
@@ -717,6 +912,9 @@ def random_case(rng, facts, hostile=False):
         r = rng.random()
         can_batch = (inforce or 'v2') != 'v1'
         style = inforce or rng.choice(['v1', 'v2', 'loose'])
+        if hostile and proto == 'auto' and rng.random() < 0.12:
+            # a peer that changes dialect after the protocol was detected (detection happens once)
+            style = rng.choice(['v1', 'v2', 'loose'])
         if r < 0.28 and len(keys) < 5:
             ok = rng.random() > 0.06
             ops.append(['S', int(ok)])
@@ -798,6 +996,87 @@ def random_case(rng, facts, hostile=False):
     return {'proto': proto, 'ops': ops}
 
 
+# ------------------------------------------------------------------ targeted families
+def answer_to(style, key, n, order=None, kind='val'):
+    """the peer's answer to the request(s) with draw indices `key` = ('s'|'b', (idx..))"""
+    if key[0] == 's':
+        return ['R', make_resp(style, key[1][0], kind, n)]
+    ids = list(key[1]) if order is None else [key[1][j] for j in order]
+    return ['L', [make_resp(style, i, 'val' if (n + j) % 3 else 'err', n + j)
+                  for j, i in enumerate(ids)]]
+
+
+def reuse_cases():
+    """A request (or batch) completes, is cancelled or is given up; a later request is sent;
+    then a duplicate / late copy of the peer's answer to the EARLIER one arrives, before or after
+    the answer to the later one.  On a tree that hands an id out a second time that copy finds
+    the id outstanding again and completes a different request."""
+    kinds = {'S': ('S', 1), 'B:rr': ('B', 'rr', 1), 'B:rnr': ('B', 'rnr', 1)}
+    for proto in ('v1', 'v2', 'loose', 'auto'):
+        names = ['S'] if proto == 'v1' else list(kinds)
+        for style in _styles(proto):
+            for a in names:
+                for b in names:
+                    for how in ('answered', 'cancelled', 'given-up-then-answered', 'two-rounds'):
+                        ops, nxt = [], 0
+
+                        def send(name):
+                            nonlocal nxt
+                            ops.append(list(kinds[name]))
+                            n = 1 if name == 'S' else kinds[name][1].count('r')
+                            key = ('s' if name == 'S' else 'b', tuple(range(nxt, nxt + n)))
+                            nxt += n
+                            return key
+                        ka = send(a)
+                        first = answer_to(style, ka, 4)
+                        if how == 'answered':
+                            ops.append(first)
+                        elif how == 'cancelled':
+                            ops.append(['C'])
+                        elif how == 'given-up-then-answered':
+                            ops += [['X', 0], first]
+                        else:
+                            ops.append(first)
+                            kc = send(b)
+                            ops.append(answer_to(style, kc, 10))
+                        kb = send(b)
+                        second = answer_to(style, kb, 7, order=None if kb[0] == 's' else [1, 0])
+                        for tail in ([first, second], [second, first], [first, first, second]):
+                            yield {'proto': proto, 'ops': ops + tail}
+
+
+def boundary_cases(warmups=(8, 98), sizes=(3,), extras=('', 'single', 'batch')):
+    """ids across the digit boundaries 9/10 and 99/100: `w` singles are sent and answered, then
+    a batch of >= 3 requests whose ids straddle the boundary (8,9,10 / 98,99,100) - alone, next
+    to an outstanding single, and next to a second batch - is answered in every member order.
+    A matcher that orders ids as text, or by anything but their numeric value, fails here."""
+    for proto in ('v2', 'loose', 'auto'):
+        for style in _styles(proto):
+            if style == 'v1':
+                continue
+            for w in warmups:
+                warm = []
+                for i in range(w):
+                    warm += [['S', 1], ['R', make_resp(style, i, 'val', 1)]]
+                for size in sizes:
+                    ids = tuple(range(w, w + size))
+                    for order in itertools.permutations(range(size)):
+                        for extra in extras:
+                            if extra and order[0] == 0:
+                                continue
+                            ops = list(warm) + [['B', 'r' * size, 1]]
+                            tail = [answer_to(style, ('b', ids), 4, order=list(order))]
+                            if extra == 'single':
+                                ops.append(['S', 1])
+                                tail.append(['R', make_resp(style, w + size, 'err', 5)])
+                            elif extra == 'batch':
+                                ops.append(['B', 'rnr', 1])
+                                tail.insert(0, answer_to(style, ('b', (w + size, w + size + 1)),
+                                                         16, order=[1, 0]))
+                            # and a replay of the batch answer, which must be rejected
+                            yield {'proto': proto, 'ops': ops + tail + [tail[-1]]}
+
+
 def usable(case):
     """the harness can abstract the case (all values inside the modelled grids)"""
     try:
@@ -807,26 +1086,34 @@ def usable(case):
         return False
 
 
-RULE = ('case = (protocol, op stream) on a fresh JSONRPCConnection; corpus, then exhaustive: every '
+RULE = ('case = (protocol, op stream) on a fresh JSONRPCConnection; ids in the peer\'s responses are '
+        'the ones decoded from the bytes the connection handed out; corpus, then exhaustive: every '
         'sequence of up to N sends (single / 2-request batches with and without a notification) x '
         'every order of the answers x every order of the members inside each batch answer x '
         'result/error/malformed shapes x one inserted extra message (duplicate, unknown, bool, '
         'float-equal, half, str, null, missing id, unhashable, partial/over-full/foreign/unsortable '
         'batch answers, singles answered as a batch, cancel) at every position, for v1, v2, Loose and '
-        'AutoDetect (three message styles); then seeded random streams (<= 12 ops, <= 5 outstanding) '
-        'and a hostile stream; session layer through a real RPCSession on a fake transport; '
-        'non-trivial = at least 3 ops including a response; distinct = distinct model input lines')
+        'AutoDetect (three message styles); batches of >= 3 whose ids straddle 9/10 and 99/100 '
+        '(after 8 / 98 answered singles) x every member order; late / duplicate answers to an '
+        'earlier request after a later one was sent; then seeded random streams (<= 12 ops, <= 5 '
+        'outstanding) and a hostile stream; session layer through a real RPCSession on a fake '
+        'transport (permuted answers, replays, unknown ids, malformed-with-id, late replies after '
+        'timeouts, connection lost, senders blocked by a full send buffer and cancelled / timed '
+        'out there); non-trivial = at least 3 ops including a response; distinct = distinct model '
+        'input lines')
 
 
 def run(ctx):
     res = Results()
     rng = ctx.rng
-    facts = ctx.facts or {}
     # (a) corpus first
     cc = [parse_corpus_line(l) for l in corpus_lines(ctx.verif, 'C01')]
     evaluate(ctx, cc, res, 'corpus')
-    # (b) exhaustive small scopes (smallest first; no enlarging once something failed)
-    ex = list(exhaustive_cases(facts, 2, ['S', 'B:rr', 'B:rnr'], (0, 1)))
+    # (b) targeted families, then exhaustive small scopes (smallest first; no enlarging once
+    # something failed)
+    evaluate(ctx, list(reuse_cases()), res, 'late_answer_after_later_request')
+    evaluate(ctx, list(boundary_cases()), res, 'ids_across_digit_boundaries')
+    ex = list(exhaustive_cases(2, ['S', 'B:rr', 'B:rnr'], (0, 1)))
     evaluate(ctx, ex, res, 'exhaustive_2_sends')
     # depth: quick < drift (a modelled function changed: explore more, still within the quick
     # budget) < thorough
@@ -835,17 +1122,19 @@ def run(ctx):
             return 0
         return 2 if ctx.tier == 'thorough' else 1 if ctx.deep else 0
     if depth() >= 1:
-        ex = list(exhaustive_cases(facts, 2, ['S', 'B:rr', 'B:rnr', 'B:r', 'B:nn'], (2,)))
+        ex = list(exhaustive_cases(2, ['S', 'B:rr', 'B:rnr', 'B:r', 'B:nn'], (2,)))
         evaluate(ctx, ex, res, 'exhaustive_2_sends_more_kinds')
+        evaluate(ctx, list(boundary_cases((7, 9), (3, 4))) + list(boundary_cases((97, 99), (4,), ('',))),
+                 res, 'ids_across_digit_boundaries_more')
     if depth() >= 2:
-        ex = list(exhaustive_cases(facts, 3, ['S', 'B:rr', 'B:nrr'], (0, 1), thin=3))
+        ex = list(exhaustive_cases(3, ['S', 'B:rr', 'B:nrr'], (0, 1), thin=3))
         evaluate(ctx, ex, res, 'exhaustive_3_sends_every_3rd')
     # (c) seeded structured generator + hostile stream
     ngen = (8000, 25000, 300000)[depth()]
-    gen = [c for c in (random_case(rng, facts) for _ in range(ngen)) if usable(c)]
+    gen = [c for c in (random_case(rng) for _ in range(ngen)) if usable(c)]
     evaluate(ctx, gen, res, 'generated')
     nh = (3000, 6000, 100000)[depth()]
-    hostile = [c for c in (random_case(rng, facts, hostile=True) for _ in range(nh)) if usable(c)]
+    hostile = [c for c in (random_case(rng, hostile=True) for _ in range(nh)) if usable(c)]
     evaluate(ctx, hostile, res, 'hostile')
     for c in gen[:2] + hostile[:1]:
         res.sample({'model_line': abstract(c)})
